@@ -169,8 +169,11 @@ class Gen:
                 return {"un": "neg", "a": self.operand("B", depth), "t": "I"}
             return {"un": u, "a": self.operand("I", depth), "t": "I"}
         if fam == "ite":
-            tv = self.int_or_const(depth)
-            fv = self.int_or_const(depth)
+            if r.random() < 0.15:
+                tv, fv = self.operand("B", depth), self.operand("B", depth)
+            else:
+                tv = self.int_or_const(depth)
+                fv = self.int_or_const(depth)
             if "k" in tv and "k" in fv:
                 fv = self.operand("I", depth)
             return {"call": "ite", "args": [self.operand("B", depth), tv, fv], "t": "I"}
@@ -186,7 +189,9 @@ class Gen:
 
     def expr_B(self, depth):
         r = self.r
-        fam = self.pick(["cmp", "boolop", "check", "tobool", "ite"]) or "cmp"
+        # note: if_then_else on boolean-typed branches returns an integer-typed LinComb, so "ite" is
+        # not a boolean-typed expression
+        fam = self.pick(["cmp", "boolop", "check", "tobool"]) or "cmp"
         if fam == "cmp":
             op = r.choice(CMPS)
             u = r.random()
@@ -457,6 +462,9 @@ class CodeGen:
         c = e["call"]
         if c == "ite":
             a = [self.ex(x) for x in e["args"]]
+            if e["t"] == "I" and e["args"][1].get("t") == "B":
+                # if_then_else(c, x, x) returns x itself; "+ 0" keeps the result integer-typed
+                return "(if_then_else(%s, %s, %s) + 0)" % tuple(a)
             return "if_then_else(%s, %s, %s)" % tuple(a)
         if c in ("check_zero", "check_nonzero", "check_positive"):
             return "%s.%s()" % (self.ex(e["args"][0]), c)
@@ -642,6 +650,36 @@ class CodeGen:
         src = "%s[%s] = %s" % (self.var("A", s["arr"]), self.ex(s["ix"]), self.ex(s["value"]))
         self.wrap_try(s, lambda: self.emit(src))
         self.step({"kind": "aset", "desc": {"op": "aset"}})
+
+    def schema_src(self, sc):
+        k = sc[0]
+        if k == "bool":
+            return "PackBool()"
+        if k == "int":
+            return "PackIntMod(%d)" % sc[1]
+        if k == "list":
+            return "PackList([%s])" % ", ".join(self.schema_src(x) for x in sc[1])
+        if k == "rep":
+            return "PackRepeat(%s, %d)" % (self.schema_src(sc[1]), sc[2])
+        raise ValueError(k)
+
+    def value_src(self, v):
+        if isinstance(v, list):
+            return "[%s]" % ", ".join(self.value_src(x) for x in v)
+        return self.ex(v)
+
+    def st_pack(self, s):
+        self.rid += 1
+        n = self.rid
+        def body():
+            self.emit("_pk%d = %s" % (n, self.schema_src(s["schema"])))
+            self.emit("_pv%d = %s" % (n, self.value_src(s["value"])))
+            self.emit("_pb%d = _pk%d.pack(_pv%d)" % (n, n, n))
+            self.emit("__packinfo__(%d, _pk%d, _pb%d)" % (n, n, n))
+            self.emit("_po%d = _pk%d.unpack(_pb%d, 0)" % (n, n, n))
+            self.emit("__packout__(%d, _po%d)" % (n, n))
+        self.wrap_try(s, body)
+        self.step({"kind": "pack", "desc": {"op": "pack"}})
 
     # -- whole plan
     def generate(self):
